@@ -172,7 +172,7 @@ Definition lay_action (a : action) : lsexp :=
   | ASet f args v => LList [kw k_set; it (lay_call f (List.map lay_expr args)); it (lay_expr v)] []
   | AChange c f args => LList [kw (change_kw c); it (lay_call f (List.map lay_expr args))] []
   | AUnion a b => LList [kw k_union; it (lay_expr a); it (lay_expr b)] []
-  | APanic m => LList [kw k_panic; it (LRawStr m)] []
+  | APanic m => LList [kw k_panic; it (LLit (LStr m))] []
   | AExpr e => lay_expr e
   end.
 
@@ -204,28 +204,14 @@ Definition flag_items (k : str) (b : bool) : list (str * lsexp) :=
 Definition cost_items (c : option N) : list (str * lsexp) :=
   match c with None => [] | Some n => [it (LAtom o_cost); it (lay_N n)] end.
 
-(** `Display for Variant`: `:unextractable` is not printed *)
+(** `Display for Variant` *)
 Definition lay_variant (v : variant) : lsexp :=
-  LList (kw (v_name v) :: List.map (fun t => it (LAtom t)) (v_types v) ++ cost_items (v_cost v)) [].
+  LList (kw (v_name v) :: List.map (fun t => it (LAtom t)) (v_types v) ++ cost_items (v_cost v)
+           ++ flag_items o_unextractable (v_unextractable v)) [].
 
 (** `Display for Schema` = "({}) {}" *)
 Definition schema_items (inputs : list str) (output : str) : list (str * lsexp) :=
   [it (LList (list_disp [] sp (List.map LAtom inputs)) []); it (LAtom output)].
-
-(** Rust `{:?}` of a str, restricted to the escapes that can occur for the characters the link
-    generates (quote, backslash, \n, \t, \r; everything else verbatim) *)
-Fixpoint dbg_escape (s : str) : str :=
-  match s with
-  | [] => []
-  | c :: tl =>
-      if (c =? c_bs) || (c =? c_quote) then c_bs :: c :: dbg_escape tl
-      else if c =? c_nl then c_bs :: c_n :: dbg_escape tl
-      else if c =? c_tab then c_bs :: c_t :: dbg_escape tl
-      else if c =? 13 then c_bs :: 114 :: dbg_escape tl
-      else c :: dbg_escape tl
-  end.
-(** a `{:?}`-printed string: the quoted text is [dbg_escape f]; it is meant to denote [f] *)
-Inductive dbgstr := DbgStr (f : str).
 
 (** the rule tail: ")\n{indent} {ruleset} {name}{eval_mode}{no_decomp}{include_subsumed})" *)
 Definition rule_tail (r : rule) : list (str * lsexp) * str :=
@@ -236,7 +222,7 @@ Definition rule_tail (r : rule) : list (str * lsexp) * str :=
                    end in
   let '(i2, p2) := match r_name r with
                    | [] => (i1, p1)
-                   | nm => (i1 ++ [(p1, LAtom o_name); it (LRawStr nm)], [])
+                   | nm => (i1 ++ [(p1, LAtom o_name); it (LLit (LStr nm))], [])
                    end in
   let flags := (match r_mode r with Seminaive => [] | Naive => [o_naive] | UnsafeSeminaive => [o_unsafe_seminaive] end)
                ++ (if r_no_decomp r then [o_no_decomp] else [])
@@ -253,7 +239,7 @@ Definition lay_rule (r : rule) : lsexp :=
            :: (nl6, LList (list_disp [] nl7 (List.map lay_action (r_head r))) [])
            :: tl) cw.
 
-(** GenericRewrite::fmt_with_ruleset: `:name` is not printed *)
+(** GenericRewrite::fmt_with_ruleset *)
 Definition lay_rewrite (k : str) (ruleset : str) (w : rewrite) (subsume : bool) : lsexp :=
   LList (kw k :: it (lay_expr (w_lhs w)) :: it (lay_expr (w_rhs w))
            :: flag_items o_subsume subsume
@@ -261,11 +247,11 @@ Definition lay_rewrite (k : str) (ruleset : str) (w : rewrite) (subsume : bool) 
                | [] => []
                | cs => [it (LAtom o_when); it (LList (list_disp [] sp (List.map lay_fact cs)) [])]
                end)
-           ++ (match ruleset with [] => [] | rs => [it (LAtom o_ruleset); it (LAtom rs)] end)) [].
+           ++ (match ruleset with [] => [] | rs => [it (LAtom o_ruleset); it (LAtom rs)] end)
+           ++ (match w_name w with [] => [] | nm => [it (LAtom o_name); it (LLit (LStr nm))] end)) [].
 
-(** a string that Rust prints with `{:?}`: text = quote, dbg_escape, quote.  We reuse [LRawStr]
-    on the escaped text for the layout; the tree it denotes is given separately by [den]. *)
-Definition lay_dbg (f : str) : lsexp := LRawStr (dbg_escape f).
+(** file names are printed as string literals *)
+Definition lay_dbg (f : str) : lsexp := LLit (LStr f).
 
 Definition lay_head_list (k : str) (pre : list (str * lsexp)) (xs : list lsexp) (sep : str) : lsexp :=
   LList (kw k :: pre ++ list_disp sp sep xs) (tail_ws xs).
@@ -327,8 +313,7 @@ Fixpoint lay_command (c : command) : lsexp :=
   | CExtract e v => LList [kw k_extract; it (lay_expr e); it (lay_expr v)] []
   | CRunSchedule s => LList [kw k_run_schedule; it (lay_sched s)] []
   | CPrintStats None => LList [kw k_print_stats] []
-  (* the file name is printed raw, without quotes (src/ast/mod.rs:1130) *)
-  | CPrintStats (Some f) => LList [kw k_print_stats; it (LAtom o_file); it (LAtom f)] []
+  | CPrintStats (Some f) => LList [kw k_print_stats; it (LAtom o_file); it (lay_dbg f)] []
   | CCheck fs => lay_head_list k_check [] (List.map lay_fact fs) [10]
   | CProve [] => LList [kw k_prove] []
   | CProve fs => lay_head_list k_prove [] (List.map lay_fact fs) sp
